@@ -74,6 +74,7 @@ func checkC11(c *core.Ctx, r *core.Report) {
 	checkPair(c, r, a, scope, map[string]string{})
 	checkLockOrder(c, r, a, scope, nil)
 	checkHeldTables(c, r, a)
+	checkNewSharedVariables(c, r, a)
 	checkHandOver(c, r)
 	checkHoldWait(c, r, a, scope)
 	checkUnregister(c, r, a)
